@@ -100,9 +100,10 @@ Proof.
   rewrite (lstrip_q_nq (rev n) _ Hrn (C07.Readings.forallb_rev _ _ _ Hqn)).
   rewrite rev_app_distr. cbn [rev]. rewrite !rev_involutive, <- app_assoc. cbn [app].
   rewrite (split_hash_nq st _ [] Hqs). cbn [split_hash]. unfold c_hash at 1. cbn [N.eqb Pos.eqb].
-  rewrite app_nil_r, rev_involutive.
-  rewrite <- (app_nil_r n) at 1. rewrite (split_hash_nq n [] [] Hqn). cbn [split_hash].
-  now rewrite app_nil_r, rev_involutive.
+  assert (E2 : split_hash n [] = [n]).
+  { rewrite <- (app_nil_r n) at 1. rewrite (split_hash_nq n [] [] Hqn). cbn [split_hash].
+    now rewrite app_nil_r, rev_involutive. }
+  now rewrite E2.
 Qed.
 
 (* ------------------------------------------------------------------ validation does not tell True from 1 *)
@@ -210,7 +211,7 @@ Section CallReq.
       rewrite (prepare_ok float_str float_of_str lower_ext set_iter urljoin set_iter_same dev_url s a Hwf Ha).
       cbv zeta.
       rewrite (accepted_valid float_str float_of_str lower_ext set_iter urljoin set_iter_same dev_url s a kw Hwf Ha).
-      rewrite (values_in_domain float_str float_of_str lower_ext set_iter urljoin set_iter_same dev_url s a kw Hwf Ha).
+      rewrite (values_in_domain float_str float_of_str lower_ext set_iter urljoin dev_url s a kw Hwf Ha).
       rewrite in_arguments_cargs.
       repeat (apply andb_true_iff; split).
       - exact Hn.
